@@ -30,6 +30,10 @@ func runPflagParse(raw json.RawMessage) interface{} {
 			fs.CountP(f.Name, f.Short, "")
 		case "stringSlice":
 			fs.StringSliceP(f.Name, f.Short, nil, "")
+		case "stringArray":
+			fs.StringArrayP(f.Name, f.Short, nil, "")
+		case "ipNetSlice":
+			fs.IPNetSliceP(f.Name, f.Short, nil, "")
 		case "optString":
 			fs.StringP(f.Name, f.Short, "", "")
 			fs.Lookup(f.Name).NoOptDefVal = "dflt"
@@ -46,7 +50,13 @@ func runPflagParse(raw json.RawMessage) interface{} {
 	out["args"] = append([]string{}, fs.Args()...)
 	out["lenAtDash"] = fs.ArgsLenAtDash()
 	vals := [][2]string{}
-	fs.Visit(func(f *pflag.Flag) { vals = append(vals, [2]string{f.Name, f.Value.String()}) })
+	fs.Visit(func(f *pflag.Flag) {
+		v := f.Value.String()
+		if t := f.Value.Type(); t == "stringArray" || t == "ipNetSlice" {
+			v = "*" // only whether the flag was set (the text form goes through a CSV writer)
+		}
+		vals = append(vals, [2]string{f.Name, v})
+	})
 	out["values"] = vals
 	return out
 }
